@@ -61,7 +61,7 @@ class DeleteReference(Contract):
         def replay(w):
             return {"target": "bounded.replay_helpers:delete_reference_cases"}
         def confirm(w, out):
-            return out.get("kind") != "return" or out.get("value") is not True
+            return battery_confirm(w, out)
         return [Case("refs", [selfo, line, key], post, pre=pre, zh=h0, invariants=inv, symbols={"key": key}, replay=replay, confirm=confirm)]
 
 
@@ -97,4 +97,4 @@ class AddReference(Contract):
                                 z3.And(e1[0] == line.t, z3.ForAll([k], z3.Implies(z3.And(0 <= k, k < nb), e1[k + 1] == e0[k])))))
         return [Case("refs", [selfo, line, key, app], post, pre=pre, zh=h0, symbols={"key": key, "append": app},
                      replay=lambda w: {"target": "bounded.replay_helpers:add_reference_cases"},
-                     confirm=lambda w, out: out.get("kind") != "return" or out.get("value") is not True)]
+                     confirm=battery_confirm)]
